@@ -19,7 +19,7 @@ from vlib.runner import PY, REPO, VERIF
 
 ID = "C06"
 EXTRACTORS = []
-LEAN_MODULES = ["HalmosVerif.Props.C06"]
+LEAN_MODULES = ["HalmosVerif.Props.C06", "HalmosVerif.Props.C06Algebra"]
 RULE = ("one-instruction SEVM.run per case; a case = (opcode, per-operand representation in {int-backed, term variable, "
         "Concat(0,x8) term, If(b,1,0) term, literal Bool, symbolic Bool variable, ULT(x,y) Bool, Not(b) Bool}, operand values "
         "from boundary pool + integer literals harvested from bitvec.py/sevm.py (±1) + random); results evaluated under the "
